@@ -212,8 +212,22 @@ func c04Wait(out chan string, max time.Duration, onTimeout string) (string, bool
 	case s := <-out:
 		return s, true
 	case <-t.C:
+		if onTimeout == "stuck" {
+			c04StuckSeen++
+		}
 		return onTimeout, false
 	}
+}
+
+// c04StuckBound: how long the harness waits for a wrapper that must return promptly.  After the first
+// wrapper that did not (already a violation), later waits are short so that a broken tree does not cost hours.
+var c04StuckSeen int
+
+func c04StuckBound() time.Duration {
+	if c04StuckSeen > 0 {
+		return 100 * time.Millisecond
+	}
+	return 2 * time.Second
 }
 
 func c04Sel(op []string, never chan struct{}) string {
@@ -240,7 +254,7 @@ func c04Sel(op []string, never chan struct{}) string {
 	if at == "before" && kind != "none" {
 		fire()
 		if effective {
-			o, _ := c04Wait(out, 5*time.Second, "stuck")
+			o, _ := c04Wait(out, c04StuckBound(), "stuck")
 			close(gate) // the late work returns into the void
 			return "out=" + o
 		}
@@ -249,7 +263,7 @@ func c04Sel(op []string, never chan struct{}) string {
 		if got || work.kind == "never" {
 			return "out=" + o
 		}
-		o2, _ := c04Wait(out, 5*time.Second, "stuck")
+		o2, _ := c04Wait(out, c04StuckBound(), "stuck")
 		return "out=" + o + " then=" + o2
 	}
 	// the work ends first
@@ -258,12 +272,12 @@ func c04Sel(op []string, never chan struct{}) string {
 		o, _ := c04Wait(out, 15*time.Millisecond, "blocked")
 		fire()
 		if effective {
-			o2, _ := c04Wait(out, 5*time.Second, "stuck")
+			o2, _ := c04Wait(out, c04StuckBound(), "stuck")
 			return "out=" + o + " then=" + o2
 		}
 		return "out=" + o
 	}
-	o, _ := c04Wait(out, 5*time.Second, "stuck")
+	o, _ := c04Wait(out, c04StuckBound(), "stuck")
 	fire()
 	return "out=" + o
 }
@@ -276,7 +290,7 @@ func c04SelRace(op []string, never chan struct{}) string {
 		runtime.Gosched()
 	}
 	parents[0].fire(kind)
-	o, _ := c04Wait(out, 5*time.Second, "stuck")
+	o, _ := c04Wait(out, c04StuckBound(), "stuck")
 	return "out=" + o
 }
 
@@ -342,7 +356,7 @@ func c04Dl(op []string) string {
 		var s seen
 		select {
 		case s = <-ch:
-		case <-time.After(5 * time.Second):
+		case <-time.After(c04StuckBound()):
 			return "dl=work-not-run"
 		}
 		t1 := time.Now()
